@@ -61,6 +61,8 @@ impl InferShapes for Slice {
                     && let Some(SymExpr::Value(end)) = end
                     && let Some(SymExpr::Value(step)) = step
                     && let SymExpr::Value(size) = dims[axis]
+                    && size >= 0
+                    && *step != 0
                 {
                     // `SliceRange` clamps out-of-range endpoints the same way the
                     // operator does, including `i32::MAX` / `i32::MIN` ends used
